@@ -152,6 +152,7 @@ func (sg *segmentTimelineGenerator) modifySegmentTemplate(as *mpd.AdaptationSetT
 	stl := mpd.SegmentTimelineType{}
 	st.SegmentTimeline = &stl
 	var s *mpd.S
+	nextT := uint64(0) // where the segment after the ones listed so far starts if the times are contiguous
 	for seqNr := firstNr; seqNr <= lastNr; seqNr++ {
 		sd, ok := sdb.getItem(seqNr)
 		if !ok {
@@ -163,10 +164,12 @@ func (sg *segmentTimelineGenerator) modifySegmentTemplate(as *mpd.AdaptationSetT
 				D: uint64(sd.dur),
 				R: 0,
 			}
+			nextT = uint64(sd.dts) + uint64(sd.dur)
 			continue
 		}
-		if uint64(sd.dur) == s.D {
+		if uint64(sd.dur) == s.D && uint64(sd.dts) == nextT {
 			s.R++
+			nextT += uint64(sd.dur)
 			continue
 		}
 		stl.S = append(stl.S, s)
@@ -174,6 +177,10 @@ func (sg *segmentTimelineGenerator) modifySegmentTemplate(as *mpd.AdaptationSetT
 			D: uint64(sd.dur),
 			R: 0,
 		}
+		if uint64(sd.dts) != nextT { // the stored segment does not start where the previous one ends
+			s.T = mpd.Ptr(uint64(sd.dts))
+		}
+		nextT = uint64(sd.dts) + uint64(sd.dur)
 	}
 	stl.S = append(stl.S, s)
 	return nil
